@@ -13,7 +13,7 @@
     IsPasswordInitialized are two boolean parameters of the accepting path.
     Bugs included; no proofs in this file. *)
 From Coq Require Import String Ascii List Bool Arith NArith ZArith.
-From Raven Require Import Base.GoStr Base.GoStrB64.
+From Raven Require Import Base.GoStr Base.GoStrB64 Base.GoStrJson.
 Import ListNotations.
 Local Open Scope char_scope.
 
@@ -39,9 +39,12 @@ Definition accepted (b : outcome) : bool :=
 Definition email_of (d u : str) : str :=
   if contains_byte u AT then u else u ++ AT :: d.
 
-(** fmt.Sprintf(`{"email":"%s","password":"%s"}`, email, password) *)
+(** json.Marshal(struct{ Email string `json:"email"`; Password string `json:"password"` }{email, password}) *)
 Definition build_body (email p : str) : str :=
-  S_ "{""email"":""" ++ email ++ S_ """,""password"":""" ++ p ++ S_ """}".
+  S_ "{""email"":""" ++ json_escape email ++ S_ """,""password"":""" ++ json_escape p ++ S_ """}".
+
+(** strings.Count(username, "@") > 1 *)
+Definition multi_at (u : str) : bool := Nat.ltb 1 (count_byte u AT).
 
 (** IMAPServer.ExtractUsername *)
 Definition extract_username (u : str) : str :=
@@ -73,6 +76,7 @@ Definition authenticate_user (d u p : str) (b : outcome) (ens init : bool) : aut
   match d with
   | [] => mk_out [] R_NO None
   | _ =>
+    if multi_at u then mk_out [] R_NO None else     (* refused before the backend is contacted *)
     let body := build_body (email_of d u) p in
     if accepted b then
       if ens then
@@ -141,9 +145,17 @@ Record sasl_out := mk_sasl {
   s_wrote : str          (* bytes written to the connection *)
 }.
 
-(** Server.authenticate *)
+(** Server.authenticate: (request bodies, result) *)
 Definition sasl_email (domain u : str) : str :=
   if negb (contains_byte u AT) then u ++ AT :: domain else u.
+
+Definition sasl_authenticate (domain u p : str) (b : outcome) : list str * bool :=
+  if multi_at u then ([], false)
+  else ([build_body (sasl_email domain u) p], accepted b).
+
+(** strings.ContainsAny(username, "\t\r\n") *)
+Definition sasl_user_bad (u : str) : bool :=
+  contains_byte u TAB || contains_byte u CR || contains_byte u LF.
 
 (** the loop over parts[3:] in handleAuth: (resp, respProvided) *)
 Fixpoint sasl_params (ps : list str) (resp : str) (given : bool) : str * bool :=
@@ -177,10 +189,13 @@ Definition sasl_plain (domain id resp : str) (given : bool) (b : outcome) : sasl
   match sasl_plain_creds id resp given with
   | inl w => mk_sasl [] w
   | inr (u, p) =>
-      let body := build_body (sasl_email domain u) p in
-      if accepted b
-      then mk_sasl [body] (sasl_line1 (S_ "OK") id (S_ "user=" ++ u))
-      else mk_sasl [body] (sasl_line1 (S_ "FAIL") id (S_ "user=" ++ u ++ TAB :: S_ "reason=Invalid credentials"))
+      if sasl_user_bad u
+      then mk_sasl [] (sasl_line1 (S_ "FAIL") id (S_ "reason=Invalid credentials format"))
+      else
+      let '(bodies, ok) := sasl_authenticate domain u p b in
+      if ok
+      then mk_sasl bodies (sasl_line1 (S_ "OK") id (S_ "user=" ++ u))
+      else mk_sasl bodies (sasl_line1 (S_ "FAIL") id (S_ "user=" ++ u ++ TAB :: S_ "reason=Invalid credentials"))
   end.
 
 Definition sasl_login (id resp : str) : sasl_out :=
